@@ -1,11 +1,11 @@
 SPECIFICATION Spec
 CONSTANTS
   T = {1}
-  StartKinds = {"dq", "di", "df", "uq"}
+  StartKinds = {"uq"}
   MaxTasks = 4
-  MaxCycles = 3
-  MaxOps = 2
-  MaxEnv = 4
+  MaxCycles = 2
+  MaxOps = 1
+  MaxEnv = 7
   MaxRequeue = 1
   MaxOffers = 1
   SkipOccupied = TRUE
